@@ -48,6 +48,8 @@ def run(ctx):
     ctx.rule("R8.local-signal-forwarding", "single-threaded auto-reset set / cancel-of-notified: notify_one's waker is woken, and when nobody waits the signal is stored (state = Set)", floor=4)
     ctx.rule("R8.local-manual-set", "single-threaded manual-reset set: flag stored before the drain, advance_generation before the loop, loop drains prior generations until None, only skip is `already set`", floor=3)
     ctx.rule("R8.local-poll", "single-threaded poll_wait: notification consumed first; register only while unset; the auto-reset signal is consumed exactly on the Ready arm", floor=4)
+    ctx.rule("R9.pending-after-register", "all four poll_wait: a Pending result is produced only after AwaiterSet::register was called with the waker handed to THIS poll (a re-poll with a new waker must replace the stored one)", floor=4)
+    ctx.rule("R10.one-consumption-per-poll", "auto-reset poll_wait: a second attempt to consume a signal (try_wait / take_notification) is made only when the previous attempt on that path returned false: one wait never swallows two signals", floor=6)
     ctx.rule("R7.awaiter-list-discipline", "generation stamped only on fresh tail-link; waker set before WAITING; NOTIFIED/IDLE after unlink; prior-generation test on the head", floor=6)
 
     for mod, sigconst in MODS:
@@ -249,6 +251,7 @@ def run(ctx):
                    f"sanctioned skip edges (previous & HAS_WAITERS == 0): {edges}; return reachable without draining by another route: {bool(other)}")
 
     local_rules(ctx, prog)
+    poll_rules(ctx, prog)
     # ---------------- R7 awaiter_set
     reg = prog.one("AwaiterSet::register")
     if reg is None:
@@ -542,3 +545,58 @@ def local_rules(ctx, prog):
                 ctx.ob("R8.local-poll", f"{mod}.register-only-while-unset", ok, b.loc(reg[0][1]["span"]), "registration is on the Unset arm of the state")
                 ctx.ob("R8.local-poll", f"{mod}.consume-on-ready", c_ok, b.loc(),
                        f"the stored signal is consumed (state = Unset) at {len(cons)} site(s), only on the Set arm, which does not register")
+
+
+def poll_rules(ctx, prog):
+    mods = {"auto": "events::auto::EventInner", "manual": "events::manual::EventInner", "local_auto": "events::local_auto::Inner", "local_manual": "events::local_manual::Inner"}
+    for mod, prefix in mods.items():
+        b = prog.one(f"{prefix}::poll_wait")
+        if b is None:
+            ctx.missing("R9.pending-after-register", f"{prefix}::poll_wait")
+            continue
+        ctx.fn(b)
+        dom = b.dominators(unwind=False)
+        wparams = [i for i in range(1, b.arg_count + 1) if b.local_ty(i)["s"].endswith("task::Waker")]
+        regs = []
+        for bb, t in b.calls():
+            if t["callee"].get("method") == "register" and "AwaiterSet" in callee_key(t["callee"]) and t["args"]:
+                sl = Slice(b).run(t["args"][-1])
+                if sl["args"] & set(wparams):
+                    regs.append(bb)
+        n = 0
+        for blk in b.blocks:
+            if blk.cleanup:
+                continue
+            for st in blk.stmts:
+                if st["k"] == "assign" and st["rv"]["k"] == "aggr" and st["rv"].get("variant") == "Pending" and st["place"]["l"] == 0:
+                    n += 1
+                    ok = any(r in dom[blk.idx] for r in regs)
+                    ctx.ob("R9.pending-after-register", f"{mod}.poll_wait#{n}", ok, b.loc(st["span"]),
+                           f"Pending is returned behind register(.., waker of this poll): {ok}" + ("" if ok else " - the task polling now is never woken"))
+        if n == 0:
+            ctx.missing("R9.pending-after-register", f"a literal Poll::Pending in {prefix}::poll_wait")
+    # ---- one consumption per poll (thread-safe auto-reset)
+    b = prog.one("events::auto::EventInner::poll_wait")
+    if b is None:
+        return
+    cons = [(bb, t) for bb, t in b.calls() if not b.blocks[bb].cleanup and t["callee"].get("method") in ("try_wait", "take_notification")]
+    pairs = 0
+    for bb1, t1 in cons:
+        after = b.successors_reach(bb1, unwind=False)
+        for bb2, t2 in cons:
+            if bb2 == bb1 or bb2 not in after:
+                continue
+            pairs += 1
+            ok = False
+            for g in switch_guards(b, bb2):
+                sl = Slice(b).run(b.blocks[g["bb"]].term["discr"])
+                if any(ct is t1 for _k, _b, ct in sl["calls"]) and g["allowed"] == {0}:
+                    ok = True
+            ctx.ob("R10.one-consumption-per-poll", f"auto.poll_wait:{t1['callee'].get('method')}@{_ordinal(cons, bb1)}->{t2['callee'].get('method')}@{_ordinal(cons, bb2)}", ok, b.loc(t2["span"]),
+                   f"the later attempt runs only when the earlier one returned false: {ok}" + ("" if ok else " - a waiter that is both notified and facing a stored signal consumes both"))
+    if pairs == 0:
+        ctx.missing("R10.one-consumption-per-poll", "consumption attempts in events::auto::EventInner::poll_wait")
+
+
+def _ordinal(cons, bb):
+    return [x for x, _ in sorted(cons, key=lambda c: c[1]["span"]["line"])].index(bb)
